@@ -186,6 +186,9 @@ func GenGenuine(r *rand.Rand, w *World, o GenOpts) *Genuine {
 		if len(a.Attrs) == 0 && r.IntN(2) == 0 {
 			a.HasAttrStmt = false
 		}
+		if len(a.Attrs) >= 2 && r.IntN(6) == 0 {
+			a.AttrSplit = 1 + r.IntN(len(a.Attrs)-1) // two AttributeStatement elements (the schema allows several statements)
+		}
 		// authn statement
 		switch r.IntN(5) {
 		case 0:
